@@ -50,6 +50,7 @@ type Obl struct {
 	Heap0   map[string]*Term
 	KnownRegion string
 	Subs        []*Obl // per-return-site parts; the obligation holds iff all parts do
+	Secs        int // solver budget override for this obligation (0: the tier's budget)
 	FixedArgs   map[string]string // `each` instances: parameter name -> Go expression of the constant
 }
 
@@ -84,6 +85,7 @@ type Exec struct {
 	HavocCallsC *Contract   // synthetic contract of `havoccalls` (nil when the unit does not use it)
 	Kept        []keptField // fields kept across abstracted calls
 	HavocSites  []havocSite
+	UnitTimeout int // `timeout N` of the unit's contract
 	AbstractNames map[string]bool // callees abstracted by name in a havoccalls unit (clause abstractcall)
 }
 
@@ -854,6 +856,9 @@ func (fx *fnExec) oblige(name, kind string, st *State, goal *Term, pos token.Pos
 	if goal.IsTrue() {
 		o.Trivial = true
 	}
+	if ex.UnitTimeout > 0 {
+		o.Secs = ex.UnitTimeout
+	}
 	ex.Obls = append(ex.Obls, o)
 	if kind == "nopanic" || kind == "pre" || kind == "assertcall" {
 		// continue under the assumption that the check passed (failures do not cascade)
@@ -1222,9 +1227,31 @@ func (ex *Exec) newRef(st *State, hint string) *Term {
 }
 
 func (ex *Exec) newObject(st *State, t types.Type, hint string) *Term {
+	before := st.alloc()
 	r := ex.newRef(st, hint)
+	ex.allocEmbedded(st, t, r, before, 0)
 	ex.storeObj(st, t, r, zeroVal(t))
 	return r
+}
+
+// allocEmbedded: the locations of structs and arrays embedded by value in a freshly allocated
+// object are fresh too: not allocated before, allocated now (so that stores into them are not
+// mistaken for writes to objects that existed at entry).
+func (ex *Exec) allocEmbedded(st *State, t types.Type, ref *Term, before *Term, depth int) {
+	u, ok := t.Underlying().(*types.Struct)
+	if !ok || depth > 4 {
+		return
+	}
+	sn := structName(t)
+	for i := 0; i < u.NumFields(); i++ {
+		ft := u.Field(i).Type()
+		if isStruct(ft) || isArray(ft) {
+			e := ex.emb(sn, i, ref)
+			ex.assume(st, Not(Select(before, e)))
+			st.heapSet(allocKey, Store(st.alloc(), e, True))
+			ex.allocEmbedded(st, ft, e, before, depth+1)
+		}
+	}
 }
 
 // assumeHeapWF assumes pointers inside v are nil or allocated (no dangling pointers in Go).
